@@ -31,6 +31,28 @@ Theorem helper_names_not_fixed : forall r n, ~ In (helper_name r n) fixed_names.
 Proof. exact helper_not_fixed_l. Qed.
 Print Assumptions helper_names_not_fixed.
 
+(** Helper objects have a history (one [Converter] instance may serve several fields and
+    classes): the name it gets for field [n] is the name of [n], whatever it served before; a
+    naming that memoises the first answer in the object is refuted. *)
+Theorem converter_name_history_independent : forall h memo n,
+  fst (current_naming (use_history current_naming memo h) n) = helper_name RConverter n.
+Proof. exact converter_name_history_independent_l. Qed.
+Print Assumptions converter_name_history_independent.
+
+Theorem memo_naming_refuted :
+  exists h n m, n <> m /\
+    fst (memo_naming (use_history memo_naming None h) n) = fst (memo_naming (use_history memo_naming None h) m)
+    /\ fst (memo_naming (use_history memo_naming None h) m) <> helper_name RConverter m.
+Proof. exact memo_naming_refuted_l. Qed.
+Print Assumptions memo_naming_refuted.
+
+(** Within one class a name is bound to ONE helper; the bindings are a function of the class
+    specification alone (no earlier class enters). *)
+Theorem class_helper_names_functional : forall s e1 e2,
+  In e1 (snippets s) -> In e2 (snippets s) -> fst e1 = fst e2 -> snd e1 = snd e2.
+Proof. exact class_helper_names_functional_l. Qed.
+Print Assumptions class_helper_names_functional.
+
 (** What the repairs excluded.  [__attr_<n>] for the Attribute helper (before
     cc43dc1) collides with the converter helper of another field: *)
 Theorem old_field_scheme_refuted :
